@@ -1,7 +1,7 @@
 //! C01 — cached/uncached layer requests obey the layer state machine over build histories.
 
 use crate::core::{Check, Ctx, Fail, Scratch, Tier, bytes_to_json, hash_of, json_to_bytes, ncpu, par_map, pick_idx};
-use crate::envmodel::{EnvEntry, entries_from_json, entries_to_json, to_layer_env};
+use crate::envmodel::{EnvEntry, EnvMap, Sc, entries_from_json, entries_to_json, envmap_to_json, from_env, ref_apply, to_env, to_layer_env};
 use crate::fsutil;
 use crate::layermodel::*;
 use crate::tv::TV;
@@ -582,6 +582,9 @@ pub fn run_history_in(root: &Path, h: &[Op], names: &[&str], cleanup: bool) -> H
                     if !d.is_empty() {
                         return Err(ctxmsg(Fail::new("C01:other-layer-touched", format!("{d:?}"))));
                     }
+                    if let Ok(lr) = &got {
+                        check_read_env(lr.as_ref(), model.layer(lname), &lpath).map_err(&ctxmsg)?;
+                    }
                     match got {
                         Ok(lr) => {
                             refs.entry(*name % names.len() as u8).or_default().push(lr);
@@ -673,6 +676,8 @@ pub fn run_history_in(root: &Path, h: &[Op], names: &[&str], cleanup: bool) -> H
                         return Err(ctxmsg(Fail::new("C01:write-failed", e)));
                     }
                     compare_disk("C01", &bc.layers_dir, &model, names).map_err(&ctxmsg)?;
+                    let lp = lr.lpath();
+                    check_read_env(lr.as_ref(), model.layer(lname), &lp).map_err(&ctxmsg)?;
                     let others_after = others_snapshot(&bc.layers_dir, lname);
                     let d = fsutil::diff(&others_before, &others_after, 4);
                     if !d.is_empty() {
@@ -689,6 +694,32 @@ pub fn run_history_in(root: &Path, h: &[Op], names: &[&str], cleanup: bool) -> H
         let _ = fsutil::force_remove(&root);
     }
     out
+}
+
+/// `LayerRef::read_env` must describe what is on disk: explicit entries of the model plus the implicit layer paths
+fn check_read_env(lr: &dyn RefOps, l: &MLayer, lpath: &Path) -> Check {
+    let env = lr.r_env().map_err(|e| Fail::new("C01:read-env-failed", e))?;
+    let implicit = crate::props::c02::implicit_of(l, lpath);
+    let mut queries = vec![Sc::All, Sc::Build, Sc::Launch, Sc::Process("unknown-proc".into())];
+    for e in &l.env {
+        if matches!(e.scope, Sc::Process(_)) && !queries.contains(&e.scope) {
+            queries.push(e.scope.clone());
+        }
+    }
+    let mut e1 = EnvMap::new();
+    e1.insert(b"PATH".to_vec(), b"/usr/bin".to_vec());
+    e1.insert(b"A".to_vec(), vec![]);
+    for q in &queries {
+        for e0 in [&EnvMap::new(), &e1] {
+            let got = from_env(&env.apply(q.to_libcnb(), &to_env(e0)));
+            let want = ref_apply(&l.env, &implicit, q, e0);
+            if got != want {
+                let sig = if got == ref_apply(&l.env, &[], q, e0) { "C01:read-env-lacks-implicit-layer-paths" } else { "C01:read-env-differs-from-disk" };
+                return Err(Fail::new(sig, format!("scope {q:?}: read_env applies to {}, the layer on disk means {}", envmap_to_json(&got), envmap_to_json(&want))));
+            }
+        }
+    }
+    Ok(())
 }
 
 // ---------------- generators ----------------
@@ -1055,6 +1086,19 @@ pub fn setup_history_strategy(nnames: u8) -> impl Strategy<Value = Vec<Op>> {
         }
         h.push(Op::Restore);
         h
+    })
+}
+
+/// a cached layer that carries an environment (all four scopes possible) and survives the restore — the state in which
+/// reading the existing layer's environment matters (C12: a failed read of one of its files)
+pub fn env_layer_setup_strategy(nnames: u8) -> impl Strategy<Value = (u8, Vec<Op>)> {
+    (0..nnames, proptest::collection::vec(crate::props::c03::entry_strategy(), 1..5), any::<bool>()).prop_map(|(name, entries, launch)| {
+        let h = vec![
+            Op::Cached { name, build: true, launch, m: MType::Generic, on_restored: RDec { keep: true, cause: None, wrap: false, err: false }, on_invalid: IDec { replace: None, cause: None, wrap: false, err: false } },
+            Op::WriteEnv { name, entries },
+            Op::Restore,
+        ];
+        (name, h)
     })
 }
 
